@@ -116,6 +116,17 @@ Theorem C01_circuit_dense :
         (cspec R rO rI radd rmul ropp E half ta tb tc b (kinit R rO rI n) c (kpsi R (kinit R rO rI n))).
 Proof. exact circuit_kraus_dense. Qed.
 
+(* MPP is inside the domain of the composition theorem: the program drawn for `MPP P1*...*Pk` (noiseless) IS the program of the
+   circuit `R aux; H aux; C-P1 aux q1; ...; C-Pk aux qk; H aux; M aux` (each C-P with the auxiliary lane as control), so a circuit
+   containing MPPs is covered by C01_circuit after replacing each MPP by that circuit.  What this does not say is that the
+   composition of these steps equals the projector (1 +- P1...Pk)/2 on the data lanes: that identity is proved per product for
+   the seven mixed products of C01_mpp_fragments_partial (one to three factors) by computation, not for every k. *)
+Theorem C01_mpp_is_circuit : forall aux ps inv, forallb (fun pq : pauli * nat => negb (Nat.eqb aux (snd pq))) ps = true ->
+  ccircuit_ops (mpp_circuit aux ps inv) = Some (g_mpp aux ps inv qz).
+Proof. exact mpp_is_circuit. Qed.
+Theorem C01_circuit_concat : forall c1 c2 o1 o2, ccircuit_ops c1 = Some o1 -> ccircuit_ops c2 = Some o2 -> ccircuit_ops (c1 ++ c2) = Some (o1 ++ o2).
+Proof. exact ccircuit_ops_app. Qed.
+
 (* non-vacuity: a circuit with gates on non-adjacent lanes, an inverted measure-reset, a reset of a used lane, a reset of a
    never-used lane and a Y-basis measurement is in the domain of the theorems *)
 Definition C01_example_circuit : list cinstr :=
